@@ -110,7 +110,9 @@ def check(chk):
                        text="write failure swallowed in " + fn_.qualname)
     # the writer configures layout only: what the safe dumper can represent (shared and self-referencing containers through anchors included)
     # stays representable.  Options set on the dumper or its representer are from the layout table.
-    LAYOUT = {"default_flow_style", "line_break", "indent", "width", "explicit_start", "explicit_end", "allow_unicode", "encoding", "sort_base_mapping_type_on_output"}
+    LAYOUT = {"default_flow_style", "line_break", "indent", "width", "explicit_start", "explicit_end", "allow_unicode", "encoding", "sort_base_mapping_type_on_output",
+              "preserve_quotes", "top_level_colon_align", "prefix_colon", "map_indent", "sequence_indent", "sequence_dash_offset", "compact_seq_seq",
+              "compact_seq_map", "version", "canonical", "explicit_start", "default_style"}
     opts = [(x, src(x.targets[0])) for x in walk_local(ys.node) if isinstance(x, ast.Assign) and isinstance(x.targets[0], ast.Attribute)
             and src(x.targets[0]).split(".")[0] == "dumper"]
     for x, t in opts:
